@@ -25,3 +25,7 @@ def run(ctx, rep):
     P.fifo(rep, lib)
     P.evict(rep, lib)
     P.topn_adjacent(rep, lib)
+    # the unique stage of the composition: first occurrences only, keyed on the row (shared with C10)
+    from rules import c10, common
+    common.share(c10, ctx, rep, {"C10-FIRST-ONLY", "C10-KEY-SHAPE"})
+    P.limiter_machine(rep, lib, rid="C03-LIMITER-MACHINE")
